@@ -78,6 +78,7 @@ func runC19(r *Report, p *Program) {
 		{fcPkg, "(*record).read"}, {fcPkg, "(*streamReader).Read"}, {fcPkg, "(*FCGIClient).Request"}, {fcPkg, "(*FCGIClient).Do"}, {fcPkg, "(*FCGIClient).writePairs"}, {fcPkg, "encodeSize"}, {fcPkg, "(*streamWriter).Write"}, {fcPkg, "(*FCGIClient).writeRecord"},
 		{hs, "(*replacer).Replace"}, {hs, "(*replacer).getSubstitution"},
 		{baPkg, "parseHtpasswd"},
+		{hs, "Path.Matches"}, {hs, "PathMatcher.Match"}, {hs, "IfMatcher.Match"}, {hs, "ifCond.True"},
 	})
 	scope = withModuleCallees(p, scope)
 	st := e5Check(h, "R1", scope, c19Exceptions)
